@@ -692,6 +692,361 @@ theorem fast_deleteVertex (hs : Stable Q) {k : Kernel} (hi : ImmInv k) (hv : NoF
   have := t2 e he
   exact ⟨fun h => this (Or.inl h), fun h => this (Or.inr h)⟩
 
+/-! ## `collect_garbage` in fast mode (`FastGCInv`, builder K3) -/
+
+theorem closed_of_nf {k : Kernel} (hf : NoFlag k.fDel) (he : NoFlag k.eDel) (hR : VRef k) : Closed k := by
+  refine ⟨fun c _ a _ => by unfold fDeleted; exact hf.getD _, fun f _ a _ => by unfold eDeleted; exact he.getD _, ?_⟩
+  intro e hl
+  have hlt : e < k.nE := by unfold liveE at hl; simp at hl; exact hl.1
+  exact hR _ (k4_edgeAt_mem hlt)
+
+theorem fastgc_cellStep (hs : Stable Q) {k : Kernel} (hi : FastGCInv k) {m : Nat} (hm : m < k.nC) (hcl : Closed k)
+    (hq : Q k) : Q (deleteCellCore (unflagC k m) m) := by
+  have hlC := hi.wf.len.cDel
+  have hlast : k.nC - 1 < k.nC := by omega
+  have e0 : deleteCellCore (unflagC k m) m =
+      ((unflagC (k.swapCell m (k.nC - 1)) (k.nC - 1)).unlinkCell (k.nC - 1)).eraseCell (k.nC - 1) := by
+    rw [deleteCellCore_fast_eq m (by simpa [unflagC] using hi.imm) (by simpa [unflagC] using hi.fast)]
+    have : (unflagC k m).nC = k.nC := rfl
+    rw [this, unflagC_swapCell k (by rw [hlC]; exact hm) (by rw [hlC]; exact hlast)]
+  rw [e0]
+  have q1 := hs.swapC m (k.nC - 1) hi.wf hi.one hcl hm hlast hq
+  have hw1 := wf_swapCell hm hlast hi.wf hi.one
+  have hn1 : (k.swapCell m (k.nC - 1)).nC = k.nC := by unfold nC; rw [swapCell_cells_eq]; simp
+  exact hs.eraseC (k := k.swapCell m (k.nC - 1)) (k.nC - 1) hw1 (by rw [hn1]; exact hlast) (by simp [unflagC])
+    (by simp [unflagC]) (by simp [unflagC]) (by simp [unflagC]) (by simp [unflagC]) (by simp [unflagC])
+    (by simp [unflagC]) (by simp [unflagC, List.eraseIdx_set_eq]) q1
+
+theorem fastgc_faceStep (hs : Stable Q) {k : Kernel} (hi : FastGCInv k) {m : Nat} (hm : m < k.nF)
+    (hdel : k.fDeleted m = true) (hnfC : NoFlag k.cDel) (hcl : Closed k) (hq : Q k) :
+    Q (deleteFaceCore (unflagF k m) m) := by
+  have hlF := hi.wf.len.fDel
+  have hlast : k.nF - 1 < k.nF := by omega
+  have e0 : deleteFaceCore (unflagF k m) m =
+      ((unflagF (k.swapFace m (k.nF - 1)) (k.nF - 1)).unlinkFace (k.nF - 1)).eraseFace (k.nF - 1) := by
+    rw [deleteFaceCore_fast_eq m (by simpa [unflagF] using hi.imm) (by simpa [unflagF] using hi.fast)]
+    have : (unflagF k m).nF = k.nF := rfl
+    rw [this, unflagF_swapFace k (by rw [hlF]; exact hm) (by rw [hlF]; exact hlast)]
+  rw [e0]
+  have q1 := hs.swapF m (k.nF - 1) hi.wf hi.one hcl hm hlast hq
+  have hw1 := wf_swapFace hm hlast hi.wf hi.one
+  have hn1 : (k.swapFace m (k.nF - 1)).nF = k.nF := by unfold nF; rw [swapFace_faces_length]
+  have hno : ∀ c ∈ k.cells, ∀ x ∈ c, x / 2 ≠ m := by
+    intro c hc x hx e
+    obtain ⟨i, hil, rfl⟩ := k3_mem_getD [] hc
+    have hl : k.liveC i = true := by unfold liveC cDeleted; rw [hnfC.getD i]; simp [show i < k.nC from hil]
+    have := hcl.f i hl x hx
+    unfold eOf at this; rw [e, hdel] at this; cases this
+  have hno1 := swapFace_unused hm hlast hi.wf.cache.f (fun _ => hi.one) (fun _ => hnfC) hno
+  have hfast1 : ((unflagF (k.swapFace m (k.nF - 1)) (k.nF - 1)).unlinkFace (k.nF - 1)).fast = true := by
+    simpa [unflagF] using hi.fast
+  refine hs.eraseF (k := k.swapFace m (k.nF - 1)) (k.nF - 1) hw1 (by rw [hn1]; exact hlast) hno1 (by simp [unflagF])
+    (by simp [unflagF]) (by simp [unflagF]) ?_ (by simp [unflagF]) (by simp [unflagF])
+    (by simp [unflagF, List.eraseIdx_set_eq]) (by simp [unflagF]) q1
+  rw [eraseFace_cells_fast _ _ hfast1, unlinkFace_cells]
+  show (k.swapFace m (k.nF - 1)).cells = _
+  refine (map_corr2_low _ _ ?_).symm
+  intro c hc a ha
+  have h1 := hw1.range.cells c hc a ha
+  have h2 := hno1 c hc a ha
+  unfold nHF at h1; rw [swapFace_faces_length] at h1; unfold nF at *; omega
+
+theorem fastgc_edgeStep (hs : Stable Q) {k : Kernel} (hi : FastGCInv k) {m : Nat} (hm : m < k.nE)
+    (hdel : k.eDeleted m = true) (hnfF : NoFlag k.fDel) (hcl : Closed k) (hq : Q k) :
+    Q (deleteEdgeCore (unflagE k m) m) := by
+  have hlE := hi.wf.len.eDel
+  have hlast : k.nE - 1 < k.nE := by omega
+  have e0 : deleteEdgeCore (unflagE k m) m =
+      ((unflagE (k.swapEdge m (k.nE - 1)) (k.nE - 1)).unlinkEdge (k.nE - 1)).eraseEdge (k.nE - 1) := by
+    rw [deleteEdgeCore_fast_eq m (by simpa [unflagE] using hi.imm) (by simpa [unflagE] using hi.fast)]
+    have : (unflagE k m).nE = k.nE := rfl
+    rw [this, unflagE_swapEdge k (by rw [hlE]; exact hm) (by rw [hlE]; exact hlast)]
+  rw [e0]
+  have q1 := hs.swapE m (k.nE - 1) hi.wf hi.one hcl hm hlast hq
+  have hw1 := wf_swapEdge hm hlast hi.wf
+  have hn1 : (k.swapEdge m (k.nE - 1)).nE = k.nE := by unfold nE; rw [swapEdge_edges_length]
+  have hno : ∀ c ∈ k.faces, ∀ x ∈ c, x / 2 ≠ m := by
+    intro c hc x hx e
+    obtain ⟨i, hil, rfl⟩ := k3_mem_getD [] hc
+    have hl : k.liveF i = true := by unfold liveF fDeleted; rw [hnfF.getD i]; simp [show i < k.nF from hil]
+    have := hcl.e i hl x hx
+    unfold eOf at this; rw [e, hdel] at this; cases this
+  have hno1 := swapEdge_unused hm hlast hi.wf.cache.e (fun _ => hnfF) hno
+  have hfast1 : ((unflagE (k.swapEdge m (k.nE - 1)) (k.nE - 1)).unlinkEdge (k.nE - 1)).fast = true := by
+    simpa [unflagE] using hi.fast
+  refine hs.eraseE (k := k.swapEdge m (k.nE - 1)) (k.nE - 1) hw1 (by rw [hn1]; exact hlast) hno1 (by simp [unflagE])
+    (by simp [unflagE]) ?_ (by simp [unflagE]) (by simp [unflagE]) (by simp [unflagE, List.eraseIdx_set_eq])
+    (by simp [unflagE]) (by simp [unflagE]) q1
+  rw [eraseEdge_faces_fast _ _ hfast1, unlinkEdge_faces]
+  show (k.swapEdge m (k.nE - 1)).faces = _
+  refine (map_corr2_low _ _ ?_).symm
+  intro c hc a ha
+  have h1 := hw1.range.faces c hc a ha
+  have h2 := hno1 c hc a ha
+  unfold nHE at h1; rw [swapEdge_edges_length] at h1; unfold nE at *; omega
+
+theorem fastgc_vertexStep (hs : Stable Q) {k : Kernel} (hi : FastGCInv k) {m : Nat} (hm : m < k.nV)
+    (hdel : k.vDeleted m = true) (hnfE : NoFlag k.eDel) (hR : VRef k) (hcl : Closed k) (hq : Q k) :
+    Q (deleteVertexCore (unflagV k m) m) := by
+  have hlV := hi.wf.len.vDel
+  have hlast : k.nV - 1 < k.nV := by omega
+  have e0 : deleteVertexCore (unflagV k m) m = (unflagV (k.swapVertex m (k.nV - 1)) (k.nV - 1)).eraseVertex (k.nV - 1) := by
+    rw [deleteVertexCore_fast_eq m (by simpa [unflagV] using hi.imm) (by simpa [unflagV] using hi.fast)]
+    have : (unflagV k m).nV = k.nV := rfl
+    rw [this, unflagV_swapVertex k (by rw [hlV]; exact hm) (by rw [hlV]; exact hlast)]
+  rw [e0]
+  have q1 := hs.swapV m (k.nV - 1) hi.wf hi.one hcl hm hlast hq
+  have hw0 := wf_swapVertex hm hlast hi.wf
+  have hw1 := wf_unflagV (k.nV - 1) hw0
+  have hno0 : ∀ e ∈ k.edges, e.1 ≠ m ∧ e.2 ≠ m := by
+    intro e he
+    have := hR e he
+    constructor
+    · intro h; rw [h, hdel] at this; cases this.1
+    · intro h; rw [h, hdel] at this; cases this.2
+  have hno1 := swapVertex_unused hm hlast hi.wf.cache.v (fun _ => hnfE) hno0
+  have hel : ∀ e, e < (unflagV (k.swapVertex m (k.nV - 1)) (k.nV - 1)).nE →
+      (unflagV (k.swapVertex m (k.nV - 1)) (k.nV - 1)).eDeleted e = false := by
+    intro e _; unfold eDeleted; simp only [unflagV]; rw [swapVertex_eDel]; exact hnfE.getD e
+  have ok : EraseVertexOK (unflagV (k.swapVertex m (k.nV - 1)) (k.nV - 1)) (k.nV - 1) :=
+    ⟨by simpa [unflagV] using hlast, hel, by simpa [unflagV] using hno1⟩
+  have hedges := eraseVertex_edges hw1 ok
+  exact hs.eraseV (k := k.swapVertex m (k.nV - 1)) (k.nV - 1) hw0 (by simpa using hlast) hno1 (by simp [unflagV])
+    (by rw [hedges]; simp [unflagV]) (by simp [unflagV]) (by simp [unflagV]) (by simp [unflagV, List.eraseIdx_set_eq])
+    (by simp [unflagV]) (by simp [unflagV]) (by simp [unflagV]) q1
+
+theorem fastgc_cells (hs : Stable Q) {k : Kernel} (hi : FastGCInv k) (hC : UpC k) (hF : UpF k) (hE : UpE k) (hq : Q k) :
+    Q (gcCells k) := by
+  have key := k3_gcSweep_induct
+    (fun m k => (FastGCInv k ∧ m ≤ k.nC ∧ (∀ j, m ≤ j → k.cDeleted j = false) ∧ UpC k ∧ UpF k ∧ UpE k) ∧ Q k)
+    cDeleted (fun k i => { k with cDel := k.cDel.set i false }) deleteCellCore
+    (by
+      intro m k ⟨⟨h1, h2, h3, h4, h5, h6⟩, hq⟩
+      by_cases hd : k.cDeleted m = true
+      · rw [if_pos hd]
+        exact ⟨gcStepC h1 (by omega) hd (fun j hj => h3 j (by omega)) h4 h5 h6,
+          fastgc_cellStep hs h1 (by omega) ((closed_iff_up k).mpr ⟨h4, h5, h6⟩) hq⟩
+      · rw [if_neg hd]
+        refine ⟨⟨h1, by omega, ?_, h4, h5, h6⟩, hq⟩
+        intro j hj
+        by_cases e : j = m
+        · subst e; simpa using hd
+        · exact h3 j (by omega))
+    k.nC k
+    ⟨⟨hi, Nat.le_refl _, fun j hj => by
+        unfold cDeleted; exact getD_of_ge _ _ _ (by rw [hi.wf.len.cDel]; exact hj), hC, hF, hE⟩, hq⟩
+  unfold gcCells
+  exact hs.same (k := gcSweep k k.nC cDeleted _ deleteCellCore) rfl rfl rfl rfl rfl rfl rfl rfl key.2
+
+theorem fastgc_faces (hs : Stable Q) {k : Kernel} (hi : FastGCInv k) (hnfC : NoFlag k.cDel) (hC : UpC k) (hF : UpF k)
+    (hE : UpE k) (hq : Q k) : Q (gcFaces k) := by
+  have key := k3_gcSweep_induct
+    (fun m k => (FastGCInv k ∧ m ≤ k.nF ∧ (∀ j, m ≤ j → k.fDeleted j = false) ∧ NoFlag k.cDel ∧ UpC k ∧ UpF k ∧ UpE k) ∧ Q k)
+    fDeleted (fun k i => { k with fDel := k.fDel.set i false }) deleteFaceCore
+    (by
+      intro m k ⟨⟨h1, h2, h3, h4, h5, h6, h7⟩, hq⟩
+      by_cases hd : k.fDeleted m = true
+      · rw [if_pos hd]
+        exact ⟨gcStepF h1 (by omega) hd (fun j hj => h3 j (by omega)) h4 h5 h6 h7,
+          fastgc_faceStep hs h1 (by omega) hd h4 ((closed_iff_up k).mpr ⟨h5, h6, h7⟩) hq⟩
+      · rw [if_neg hd]
+        refine ⟨⟨h1, by omega, ?_, h4, h5, h6, h7⟩, hq⟩
+        intro j hj
+        by_cases e : j = m
+        · subst e; simpa using hd
+        · exact h3 j (by omega))
+    k.nF k
+    ⟨⟨hi, Nat.le_refl _, fun j hj => by
+        unfold fDeleted; exact getD_of_ge _ _ _ (by rw [hi.wf.len.fDel]; exact hj), hnfC, hC, hF, hE⟩, hq⟩
+  unfold gcFaces
+  exact hs.same (k := gcSweep k k.nF fDeleted _ deleteFaceCore) rfl rfl rfl rfl rfl rfl rfl rfl key.2
+
+theorem upC_of_nf {k : Kernel} (hf : NoFlag k.fDel) : UpC k := fun _ _ _ x _ => by unfold fDeleted; exact hf.getD _
+
+theorem fastgc_edges (hs : Stable Q) {k : Kernel} (hi : FastGCInv k) (hnfC : NoFlag k.cDel) (hnfF : NoFlag k.fDel)
+    (hF : UpF k) (hE : UpE k) (hq : Q k) : Q (gcEdges k) := by
+  have key := k3_gcSweep_induct
+    (fun m k => (FastGCInv k ∧ m ≤ k.nE ∧ (∀ j, m ≤ j → k.eDeleted j = false) ∧ NoFlag k.cDel ∧ NoFlag k.fDel ∧ UpF k ∧ UpE k) ∧ Q k)
+    eDeleted (fun k i => { k with eDel := k.eDel.set i false }) deleteEdgeCore
+    (by
+      intro m k ⟨⟨h1, h2, h3, h4, h5, h6, h7⟩, hq⟩
+      by_cases hd : k.eDeleted m = true
+      · rw [if_pos hd]
+        exact ⟨gcStepE h1 (by omega) hd (fun j hj => h3 j (by omega)) h4 h5 h6 h7,
+          fastgc_edgeStep hs h1 (by omega) hd h5 ((closed_iff_up k).mpr ⟨upC_of_nf h5, h6, h7⟩) hq⟩
+      · rw [if_neg hd]
+        refine ⟨⟨h1, by omega, ?_, h4, h5, h6, h7⟩, hq⟩
+        intro j hj
+        by_cases e : j = m
+        · subst e; simpa using hd
+        · exact h3 j (by omega))
+    k.nE k
+    ⟨⟨hi, Nat.le_refl _, fun j hj => by
+        unfold eDeleted; exact getD_of_ge _ _ _ (by rw [hi.wf.len.eDel]; exact hj), hnfC, hnfF, hF, hE⟩, hq⟩
+  unfold gcEdges
+  exact hs.same (k := gcSweep k k.nE eDeleted _ deleteEdgeCore) rfl rfl rfl rfl rfl rfl rfl rfl key.2
+
+theorem fastgc_verts (hs : Stable Q) {k : Kernel} (hi : FastGCInv k) (hnfC : NoFlag k.cDel) (hnfF : NoFlag k.fDel)
+    (hnfE : NoFlag k.eDel) (hE : UpE k) (hq : Q k) : Q (gcVerts k) := by
+  have hR : VRef k := by
+    intro e he
+    obtain ⟨i, hil, rfl⟩ := k3_mem_getD (0, 0) he
+    exact hE i hil (by unfold eDeleted; exact hnfE.getD i)
+  have key := k3_gcSweep_induct
+    (fun m k => (FastGCInv k ∧ m ≤ k.nV ∧ (∀ j, m ≤ j → k.vDeleted j = false) ∧ NoFlag k.cDel ∧ NoFlag k.fDel ∧
+      NoFlag k.eDel ∧ VRef k) ∧ Q k)
+    vDeleted (fun k i => { k with vDel := k.vDel.set i false }) deleteVertexCore
+    (by
+      intro m k ⟨⟨h1, h2, h3, h4, h5, h6, h7⟩, hq⟩
+      by_cases hd : k.vDeleted m = true
+      · rw [if_pos hd]
+        exact ⟨gcStepV h1 (by omega) hd (fun j hj => h3 j (by omega)) h4 h5 h6 h7,
+          fastgc_vertexStep hs h1 (by omega) hd h6 h7 (closed_of_nf h5 h6 h7) hq⟩
+      · rw [if_neg hd]
+        refine ⟨⟨h1, by omega, ?_, h4, h5, h6, h7⟩, hq⟩
+        intro j hj
+        by_cases e : j = m
+        · subst e; simpa using hd
+        · exact h3 j (by omega))
+    k.nV k
+    ⟨⟨hi, Nat.le_refl _, fun j hj => by
+        unfold vDeleted; exact getD_of_ge _ _ _ (by rw [hi.wf.len.vDel]; exact hj), hnfC, hnfF, hnfE, hR⟩, hq⟩
+  unfold gcVerts
+  exact hs.same (k := gcSweep k k.nV vDeleted _ deleteVertexCore) rfl rfl rfl rfl rfl rfl rfl rfl key.2
+
+/-- `collect_garbage` in fast mode -/
+theorem fast_collectGarbage (hs : Stable Q) {k : Kernel} (hf : k.fast = true) (hw : WF k) (h1 : k.oneCell = true)
+    (hcl : Closed k) (hq : Q k) : Q k.collectGarbage := by
+  obtain ⟨hC, hF, hE⟩ := (closed_iff_up k).mp hcl
+  unfold collectGarbage
+  by_cases hrun : (!k.deferred || !k.needsGC) = true
+  · rw [if_pos hrun]; exact hq
+  · rw [if_neg hrun]
+    have hi0 : FastGCInv { k with deferred := false } :=
+      ⟨rfl, hf, wf_withDeferred false hw, (oneCell_withDeferred k false).trans h1⟩
+    have q0 : Q ({ k with deferred := false } : Kernel) := hs.same (k := k) rfl rfl rfl rfl rfl rfl rfl rfl hq
+    obtain ⟨c1, c2, c3, c4, c5⟩ := gcCells_fast hi0 hC hF hE
+    have q1 := fastgc_cells hs hi0 hC hF hE q0
+    obtain ⟨f1, f2, f3, f4, f5⟩ := gcFaces_fast c1 c2 c3 c4 c5
+    have q2 := fastgc_faces hs c1 c2 c3 c4 c5 q1
+    obtain ⟨e1, e2, e3, e4, e5⟩ := gcEdges_fast f1 f2 f3 f4 f5
+    have q3 := fastgc_edges hs f1 f2 f3 f4 f5 q2
+    have q4 := fastgc_verts hs e1 e2 e3 e4 e5 q3
+    generalize gcVerts (gcEdges (gcFaces (gcCells { k with deferred := false }))) = kk at q4 ⊢
+    exact hs.same (k := kk) rfl rfl rfl rfl rfl rfl rfl rfl q4
+
+/-! ## assembly: every deleting / swapping / collecting / mode-switching operation, every mode -/
+
+theorem stable_deleteCell (hs : Stable Q) {k : Kernel} (hi : GInv k) {c : Nat} (hc : c < k.nC) (hq : Q k) :
+    Q (k.deleteCell c) := by
+  by_cases hd : k.deferred = true
+  · exact deferred_deleteCell hs hd c hq
+  · have hd' : k.deferred = false := by simpa using hd
+    by_cases hf : k.fast = true
+    · exact fast_cellCore hs (immInv_of_ginv hi hd' hf) (hi.noFlag_of_immediate hd').2.2.2 hc hq
+    · exact shift_cellCore hs (shiftImmInv_of_ginv hi hd' (by simpa using hf)) hc hq
+
+theorem stable_deleteFace (hs : Stable Q) {k : Kernel} (hi : GInv k) {f : Nat} (hc : f < k.nF) (hq : Q k) :
+    Q (k.deleteFace f) := by
+  by_cases hd : k.deferred = true
+  · exact deferred_deleteFace hs hd f hq
+  · have hd' : k.deferred = false := by simpa using hd
+    by_cases hf : k.fast = true
+    · exact fast_deleteFace hs (immInv_of_ginv hi hd' hf) (hi.noFlag_of_immediate hd').2.2.2 hc hq
+    · exact shift_deleteFace hs (shiftImmInv_of_ginv hi hd' (by simpa using hf)) hc hq
+
+theorem stable_deleteEdge (hs : Stable Q) {k : Kernel} (hi : GInv k) {e : Nat} (hc : e < k.nE) (hq : Q k) :
+    Q (k.deleteEdge e) := by
+  by_cases hd : k.deferred = true
+  · exact deferred_deleteEdge hs hd e hq
+  · have hd' : k.deferred = false := by simpa using hd
+    by_cases hf : k.fast = true
+    · exact fast_deleteEdge hs (immInv_of_ginv hi hd' hf) (hi.noFlag_of_immediate hd').2.2.2 hc hq
+    · exact shift_deleteEdge hs (shiftImmInv_of_ginv hi hd' (by simpa using hf)) hc hq
+
+theorem stable_deleteVertex (hs : Stable Q) {k : Kernel} (hi : GInv k) {v : Nat} (hc : v < k.nV) (hq : Q k) :
+    Q (k.deleteVertex v) := by
+  by_cases hd : k.deferred = true
+  · exact deferred_deleteVertex hs hd v hq
+  · have hd' : k.deferred = false := by simpa using hd
+    by_cases hf : k.fast = true
+    · exact fast_deleteVertex hs (immInv_of_ginv hi hd' hf) (hi.noFlag_of_immediate hd').2.2.2 hc hq
+    · exact shift_deleteVertex hs (shiftImmInv_of_ginv hi hd' (by simpa using hf)) hc hq
+
+theorem stable_collectGarbage (hs : Stable Q) {k : Kernel} (hi : GInv k) (hq : Q k) : Q k.collectGarbage := by
+  by_cases h : k.deferred = true ∧ k.needsGC = true
+  · by_cases hf : k.fast = true
+    · exact fast_collectGarbage hs hf hi.wf hi.one hi.closed hq
+    · exact shift_collectGarbage hs h.1 h.2 (by simpa using hf) hi.wf hi.one hi.closed hq
+  · rw [collectGarbage_id h]; exact hq
+
+theorem stable_enableDeferred (hs : Stable Q) {k : Kernel} (hi : GInv k) (b : Bool) (hq : Q k) : Q (k.enableDeferred b) := by
+  unfold enableDeferred
+  simp only
+  split
+  · have := stable_collectGarbage hs hi hq
+    generalize k.collectGarbage = kk at this
+    exact hs.same (k := kk) rfl rfl rfl rfl rfl rfl rfl rfl this
+  · exact hs.same (k := k) rfl rfl rfl rfl rfl rfl rfl rfl hq
+
+theorem stable_enableBU (hs : Stable Q) (k : Kernel) (kind : Nat) (b : Bool) (hq : Q k) :
+    Q (if kind == 0 then k.enableVBU b else if kind == 1 then k.enableEBU b else k.enableFBU b) := by
+  split
+  · unfold enableVBU; split
+    · split
+      · exact hq
+      · exact hs.same (k := k) rfl rfl rfl rfl rfl rfl rfl rfl hq
+    · exact hs.same (k := k) rfl rfl rfl rfl rfl rfl rfl rfl hq
+  · split
+    · unfold enableEBU; split
+      · split
+        · exact hq
+        · split
+          · have f := reorderAll_frame ({ k with incHfs := k.computeEBU })
+            exact hs.same (k := k) (by show (Kernel.reorderAll _).nV = _; rw [f.2.1])
+              (by show (Kernel.reorderAll _).edges = _; rw [f.2.2.1]) (by show (Kernel.reorderAll _).faces = _; rw [f.2.2.2.1])
+              (by show (Kernel.reorderAll _).cells = _; rw [f.2.2.2.2.1]) (by show (Kernel.reorderAll _).vDel = _; rw [f.2.2.2.2.2.1])
+              (by show (Kernel.reorderAll _).eDel = _; rw [f.2.2.2.2.2.2.1])
+              (by show (Kernel.reorderAll _).fDel = _; rw [f.2.2.2.2.2.2.2.1])
+              (by show (Kernel.reorderAll _).cDel = _; rw [f.2.2.2.2.2.2.2.2.1]) hq
+          · exact hs.same (k := k) rfl rfl rfl rfl rfl rfl rfl rfl hq
+      · exact hs.same (k := k) rfl rfl rfl rfl rfl rfl rfl rfl hq
+    · unfold enableFBU; split
+      · split
+        · exact hq
+        · split
+          · have f := reorderAll_frame ({ k with incCell := k.computeFBU, fBU := true })
+            exact hs.same (k := k) (by rw [f.2.1]) (by rw [f.2.2.1]) (by rw [f.2.2.2.1]) (by rw [f.2.2.2.2.1])
+              (by rw [f.2.2.2.2.2.1]) (by rw [f.2.2.2.2.2.2.1]) (by rw [f.2.2.2.2.2.2.2.1]) (by rw [f.2.2.2.2.2.2.2.2.1]) hq
+          · exact hs.same (k := k) rfl rfl rfl rfl rfl rfl rfl rfl hq
+      · exact hs.same (k := k) rfl rfl rfl rfl rfl rfl rfl rfl hq
+
+/-- the operations of the driver vocabulary that create or overwrite nothing -/
+def NonCreating : Op → Prop
+  | .deleteVertex _ | .deleteEdge _ | .deleteFace _ | .deleteCell _ => True
+  | .swapVertex _ _ | .swapEdge _ _ | .swapFace _ _ | .swapCell _ _ => True
+  | .collectGarbage | .enableDeferred _ | .enableFast _ | .enableBU _ _ => True
+  | _ => False
+
+/-- **a stable predicate is kept by every non-creating operation, in every deletion mode and every
+    bottom-up configuration**, on `GInv` states, for valid arguments -/
+theorem stable_step (hs : Stable Q) (k : Kernel) (op : Op) (hn : NonCreating op) (hi : GInv k) (hok : Global.OpOK k op)
+    (hq : Q k) : Q (k.step op).1 := by
+  cases op with
+  | deleteVertex v => exact stable_deleteVertex hs hi hok hq
+  | deleteEdge e => exact stable_deleteEdge hs hi hok hq
+  | deleteFace f => exact stable_deleteFace hs hi hok hq
+  | deleteCell c => exact stable_deleteCell hs hi hok hq
+  | swapVertex a b => exact hs.swapV a b hi.wf hi.one hi.closed hok.1 hok.2 hq
+  | swapEdge a b => exact hs.swapE a b hi.wf hi.one hi.closed hok.1 hok.2 hq
+  | swapFace a b => exact hs.swapF a b hi.wf hi.one hi.closed hok.1 hok.2 hq
+  | swapCell a b => exact hs.swapC a b hi.wf hi.one hi.closed hok.1 hok.2 hq
+  | collectGarbage => exact stable_collectGarbage hs hi hq
+  | enableDeferred b => exact stable_enableDeferred hs hi b hq
+  | enableFast b => exact hs.same (k := k) rfl rfl rfl rfl rfl rfl rfl rfl hq
+  | enableBU kind b => exact stable_enableBU hs k kind b hq
+  | _ => exact absurd hn (by simp [NonCreating])
+
 end HexAll
 end Kernel
 end OVM
